@@ -296,6 +296,7 @@ fn main() {
         "replay-c19" => props_d::replay_c19(&a.rest),
         "c19" => props_d::c19(&a),
         "replay-c16" => props_e::replay_c16(&a.rest),
+        "c16-one" => props_e::c16_one(&a.rest),
         "replay-c08" => props_e::replay_c08(&a.rest),
         "c16" => props_e::c16(&a),
         "c08" => props_e::c08(&a),
